@@ -319,8 +319,12 @@ def run_history(case, check07=None):
                     cfg["clean"] = False
                 elif r < 0.3:
                     outs = sorted(gen.declared_outputs(cur))
-                    if outs:
+                    if outs and rng.random() < 0.5:
                         cfg["targets"] = [rng.choice(outs)]
+                    elif outs:
+                        dirs = sorted({os.path.dirname(p) + "/" for p in outs if os.path.dirname(p)})
+                        if dirs:
+                            cfg["target_dirs"] = [rng.choice(dirs)]
                 elif r < 0.4:
                     cfg["keep_going"] = True
                 before_files, before_dirs = tree(".")
@@ -343,7 +347,7 @@ def run_history(case, check07=None):
                 counters["dirs_removed"] += len(before_dirs - after_dirs)
                 rc = b.returncode.value
                 tag = ("build", "noclean" if cfg.get("clean") is False else "clean",
-                       "targets" if cfg.get("targets") else "all", "ok" if (rc & ~8) == 0 else "notok",
+                       "targets" if cfg.get("targets") else ("target_dirs" if cfg.get("target_dirs") else "all"), "ok" if (rc & ~8) == 0 else "notok",
                        (action or "none").split(" ")[0])
                 what = f"{sub} build {k} cfg={cfg} rc={b.returncode} after {action!r}"
                 # what a removed path held when it was removed: what a step of this build wrote
@@ -355,13 +359,13 @@ def run_history(case, check07=None):
                     elif ev["type"] == "late_user_write" and ev["path"] in held:
                         held[ev["path"]] = H.digest_of(ev["path"]) or "user"
                 judge_removed(ledger, removed, held, snap_prev, snap, False, what, vio, counters, classes, tag)
-                must_not = (rc & ~8) != 0 or cfg.get("targets") or cfg.get("clean") is False
+                must_not = (rc & ~8) != 0 or cfg.get("targets") or cfg.get("target_dirs") or cfg.get("clean") is False
                 if must_not:
                     counters["builds_that_must_not_clean"] += 1
                     gone = removed + sorted(before_dirs - after_dirs)
                     if gone:
                         why = ("cleaning was disabled" if cfg.get("clean") is False else
-                               "the build was restricted to targets" if cfg.get("targets") else
+                               "the build was restricted to targets" if cfg.get("targets") or cfg.get("target_dirs") else
                                "the build was incomplete")
                         vio("automatic cleaning removed something although " + why, f"{what}: {gone[:4]}")
                 for p in reports:
